@@ -205,7 +205,68 @@ def _bucket(n):
 
 
 # ------------------------------------------------------------------------------------------------ generation
+SUBMINUTE = ("90s", "150s")
+
+
+def _subminute_grid(start, n, interval):
+    """bars of a run resampled to an interval that is not a whole number of minutes (bins counted from midnight)"""
+    from .c05 import grid_labels
+    import pandas as pd
+
+    return [t.to_pydatetime() for t in grid_labels(pd.Timestamp(start), int(n), interval)]
+
+
+def _gen_subminute(seed, tier):
+    """A grid whose bars are not all on whole minutes (90 s / 150 s bars): time and range triggers only. A specification
+    time denotes its minute (the constructors drop the seconds), so a trigger for hh:mm fires on the bar stamped hh:mm:00
+    if there is one - never on a bar stamped hh:mm:30."""
+    rw, rp = R.sub(seed, "world"), R.sub(seed, "program")
+    interval = rw.choice(SUBMINUTE)
+    n = rw.choice([9, 12, 15, 21, 30, 45])
+    start = datetime(2023, 8, 13) + timedelta(hours=rw.randint(0, 23), minutes=rw.choice([0, 0, 3, 7, 30]))
+    mw = U.gen_uni_market(rw, "uni0", n, ("USDC", 6), ("WETH", 18), "USDC", fee=0.05, base_price=1800.0)
+    world = {"start": str(start), "n": n, "interval": interval, "tokens": {"USDC": 6, "WETH": 18}, "assets": {"USDC": "1000", "WETH": "1"},
+             "prices": None, "markets": [mw]}
+    grid = _subminute_grid(start, n, interval)
+    nb = len(grid)
+
+    def pick():
+        t = grid[rp.randrange(nb)]
+        style = rp.choice(["bar", "bar", "minute_of_bar", "minute_of_bar", "next_minute", "before", "after"])
+        if style == "minute_of_bar":
+            return t.replace(second=0)  # the whole minute an off-minute bar lies in: not a bar itself
+        if style == "next_minute":
+            return t.replace(second=0) + timedelta(minutes=1)
+        if style == "before":
+            return grid[0] - timedelta(minutes=rp.choice([1, 3]))
+        if style == "after":
+            return grid[-1] + timedelta(minutes=rp.choice([1, 3]))
+        return t
+
+    program = []
+    for j in range(rp.choice([1, 2, 2, 3, 4])):
+        kind = rp.choice(["at_time", "at_time", "at_times", "range", "ranges"])
+        spec = {"id": f"t{j}", "kind": kind, "kwargs": {}}
+        if kind == "at_time":
+            spec["time"] = T.iso(pick())
+        elif kind == "at_times":
+            spec["times"] = [T.iso(pick()) for _ in range(rp.randint(1, 5))]
+        elif kind == "range":
+            a = pick()
+            spec["start"], spec["end"] = T.iso(a), T.iso(a + timedelta(seconds=rp.choice([90, 180, 300, 450, 600])))
+        else:
+            spec["ranges"] = []
+            for _ in range(rp.randint(1, 3)):
+                a = pick()
+                spec["ranges"].append([T.iso(a), T.iso(a + timedelta(seconds=rp.choice([90, 180, 300, 450])))])
+        program.append({"bar": -1, "phase": "initialize", "op": "trig.install", "m": None, "a": spec})
+    return {"property": ID, "seed": seed, "world": world, "program": program,
+            "faults": [{"kind": "bars_off_the_whole_minute:" + interval}]}
+
+
 def generate(seed: int, tier: str = "quick") -> dict:
+    if R.sub(seed, "subminute").random() < 0.05:
+        return _gen_subminute(seed, tier)
     rw = R.sub(seed, "world")
     rp = R.sub(seed, "program")
     k = rw.choice([1, 1, 1, 1, 2, 2, 5, 5, 15, 15, 60])
@@ -395,9 +456,14 @@ def generate(seed: int, tier: str = "quick") -> dict:
 class TriggerOracle(Oracle):
     def start(self, sim):
         w = sim.world
-        self.k = MINUTES_OF[w["interval"]]
         self.start_time = datetime.fromisoformat(w["start"])
-        self.grid = T.bar_grid(self.start_time, int(w["n"]), self.k)
+        if w["interval"] in SUBMINUTE:
+            self.k = 1  # nominal (only period triggers use it, and none is generated on such a grid)
+            self.grid = _subminute_grid(self.start_time, int(w["n"]), w["interval"])
+            sim.count("fault:bars_off_the_whole_minute")
+        else:
+            self.k = MINUTES_OF[w["interval"]]
+            self.grid = T.bar_grid(self.start_time, int(w["n"]), self.k)
         self.specs = {}  # id -> spec, only triggers whose installation was accepted
         self.first_bar = {}
         self.denoted = {}
